@@ -2,6 +2,7 @@ import SlotVerif.Driver.SlotMapDrv
 import SlotVerif.Driver.SlotDrv
 import SlotVerif.Driver.ShapeDrv
 import SlotVerif.Driver.ParseDrv
+import SlotVerif.Driver.GroupDrv
 /-! `svdriver`: reads one case per line `<suite> <body>`, prints one answer line per case. -/
 open SV.Drv
 
@@ -15,6 +16,7 @@ def dispatch (line : String) : String :=
     | "slot" => slotRun body
     | "shape" => shapeRun body
     | "parse" => parseRun body
+    | "grp" => grpRun body
     | _ => "bad-suite"
   | [] => "bad-line"
 
